@@ -337,25 +337,26 @@ type item struct {
 }
 
 type run struct {
-	sc         *Scenario
-	k          *kernel.K
-	n          *simnet.Net
-	res        *core.Result
-	relay      *common.Relay
-	items      []item
-	closedT    time.Time
-	chClosed   bool
-	inErr      string
-	cliFin     bool
-	sndFin     bool
-	qid        uint16
-	cliConn    *simnet.StreamConn
-	sndConn    *simnet.StreamConn
-	srv        *dns.Server
-	l          *simnet.Listener
-	serveRet   bool
-	outErr     string
-	lastFaultT time.Time
+	sc                  *Scenario
+	k                   *kernel.K
+	n                   *simnet.Net
+	res                 *core.Result
+	relay               *common.Relay
+	items               []item
+	closedT             time.Time
+	chClosed            bool
+	connClosedAtChClose bool // the connection was already closed when the consumer saw the channel closed
+	inErr               string
+	cliFin              bool
+	sndFin              bool
+	qid                 uint16
+	cliConn             *simnet.StreamConn
+	sndConn             *simnet.StreamConn
+	srv                 *dns.Server
+	l                   *simnet.Listener
+	serveRet            bool
+	outErr              string
+	lastFaultT          time.Time
 }
 
 //go:norace
@@ -400,8 +401,9 @@ func (c *clientTask) RunEvent(time.Time) {
 		k.EffectLocked("env " + strconv.Itoa(len(it.recs)) + " " + errClass(it.err))
 		k.Unlock()
 	}
+	closedNow := x.cliConn.IsClosed()
 	k.Lock()
-	x.chClosed, x.closedT = true, time.Now()
+	x.chClosed, x.closedT, x.connClosedAtChClose = true, time.Now(), closedNow
 	k.Unlock()
 }
 
@@ -586,6 +588,7 @@ func runIn(sc *Scenario, res *core.Result, verbose bool) {
 	defer kernel.SetCurrent(nil)
 	n := simnet.New(k)
 	n.Stream = simnet.StreamLink{MinDelay: time.Duration(sc.DelayMs) * time.Millisecond, Jitter: time.Duration(sc.DelayMs) * time.Millisecond, SegMode: sc.SegMode, ShortRead: sc.ShortRead}
+	n.CloseYields = core.Mode == "instr"
 	x := &run{sc: sc, k: k, n: n, res: res, qid: uint16(4000 + sc.RunSeed%1000)}
 	cli, relayC := n.Pair(false)
 	x.cliConn = cli
@@ -784,6 +787,14 @@ func (x *run) judge(start0 time.Time) {
 		if !x.cliConn.IsClosed() {
 			res.Fail("T2", "connection-left-open", "the transfer completed but the library did not close the connection")
 			return
+		}
+		if core.Mode == "instr" {
+			// the unmodified tree's build cannot order the two closures deterministically; the instrumented one can
+			res.Bump("oracle.T2_closed_when_channel_closes")
+			if !x.connClosedAtChClose {
+				res.Fail("T2", "channel-closed-before-connection", "when the consumer saw the channel closed the connection was still open: the transfer is announced finished before the library has closed the connection")
+				return
+			}
 		}
 		return
 	}
